@@ -112,6 +112,68 @@ func isBinaryWrite(c *ast.CallExpr) bool {
 	return ok && id.Name == "binary" && se.Sel.Name == "Write"
 }
 
+// isWriteLoop reports whether s is `for _, f := range X { if err := binary.Write(w, binary.LittleEndian, f); err != nil { return err } }`.
+func isWriteLoop(s *ast.RangeStmt) bool {
+	if len(s.Body.List) != 1 {
+		return false
+	}
+	is, ok := s.Body.List[0].(*ast.IfStmt)
+	if !ok || is.Init == nil {
+		return false
+	}
+	as, ok := is.Init.(*ast.AssignStmt)
+	if !ok || len(as.Rhs) != 1 {
+		return false
+	}
+	c, ok := as.Rhs[0].(*ast.CallExpr)
+	return ok && isBinaryWrite(c) && len(c.Args) == 3 &&
+		exprString(c.Args[1]) == "binary.LittleEndian" && exprString(c.Args[2]) == exprString(s.Value)
+}
+
+// writeLoopHelper reports whether the function named fn in path is a helper `func h(w io.Writer, fields []interface{}) error`
+// whose body is exactly the write loop over its second parameter followed by `return nil` (an extracted copy of the idiom).
+func writeLoopHelper(path, fn string) bool {
+	fd, _, err := findFunc(path, fn)
+	if err != nil || fd.Recv != nil || fd.Type.Params == nil {
+		return false
+	}
+	var params []string
+	for _, f := range fd.Type.Params.List {
+		for _, n := range f.Names {
+			params = append(params, n.Name)
+		}
+	}
+	if len(params) != 2 || len(fd.Body.List) != 2 {
+		return false
+	}
+	rs, ok := fd.Body.List[0].(*ast.RangeStmt)
+	if !ok || exprString(rs.X) != params[1] || !isWriteLoop(rs) {
+		return false
+	}
+	ret, ok := fd.Body.List[1].(*ast.ReturnStmt)
+	return ok && len(ret.Results) == 1 && exprString(ret.Results[0]) == "nil"
+}
+
+// noHashInput: digest := sha256.New(); txBody := tx.Body; return digest.Sum(nil) — such statements must not smuggle hash input.
+func noHashInput(s ast.Node, fset *token.FileSet) error {
+	bad := false
+	ast.Inspect(s, func(n ast.Node) bool {
+		if c, ok := n.(*ast.CallExpr); ok {
+			if se, ok := c.Fun.(*ast.SelectorExpr); ok && se.Sel.Name == "Sum" && len(c.Args) == 1 && exprString(c.Args[0]) != "nil" {
+				bad = true
+			}
+			if se, ok := c.Fun.(*ast.SelectorExpr); ok && se.Sel.Name == "Write" {
+				bad = true
+			}
+		}
+		return true
+	})
+	if bad {
+		return fmt.Errorf("%s: hash input outside the recognised idioms", fset.Position(s.Pos()))
+	}
+	return nil
+}
+
 func extractDigest(spec digestSpec, types map[string]string) ([][2]string, error) {
 	fd, fset, err := findFunc(spec.file, spec.fn)
 	if err != nil {
@@ -144,19 +206,7 @@ func extractDigest(spec digestSpec, types map[string]string) ([][2]string, error
 			if !ok {
 				return nil, fmt.Errorf("%s: range over non-literal", fset.Position(s.Pos()))
 			}
-			// body must be exactly: if err := binary.Write(w, binary.LittleEndian, f); err != nil { return err }
-			okBody := false
-			if len(s.Body.List) == 1 {
-				if is, ok := s.Body.List[0].(*ast.IfStmt); ok && is.Init != nil {
-					if as, ok := is.Init.(*ast.AssignStmt); ok && len(as.Rhs) == 1 {
-						if c, ok := as.Rhs[0].(*ast.CallExpr); ok && isBinaryWrite(c) && len(c.Args) == 3 &&
-							exprString(c.Args[1]) == "binary.LittleEndian" && exprString(c.Args[2]) == exprString(s.Value) {
-							okBody = true
-						}
-					}
-				}
-			}
-			if !okBody {
+			if !isWriteLoop(s) {
 				return nil, fmt.Errorf("%s: loop body is not the binary.Write(w, LittleEndian, f) idiom", fset.Position(s.Pos()))
 			}
 			for _, e := range cl.Elts {
@@ -183,22 +233,33 @@ func extractDigest(spec digestSpec, types map[string]string) ([][2]string, error
 			} else {
 				return nil, fmt.Errorf("%s: unsupported call %s", fset.Position(s.Pos()), exprString(c.Fun))
 			}
-		case *ast.AssignStmt, *ast.ReturnStmt, *ast.DeclStmt:
-			// digest := sha256.New(); txBody := tx.Body; return digest.Sum(nil): must not smuggle hash input
-			bad := false
-			ast.Inspect(s, func(n ast.Node) bool {
-				if c, ok := n.(*ast.CallExpr); ok {
-					if se, ok := c.Fun.(*ast.SelectorExpr); ok && se.Sel.Name == "Sum" && len(c.Args) == 1 && exprString(c.Args[0]) != "nil" {
-						bad = true
+		case *ast.ReturnStmt:
+			// `return helper(w, []interface{}{ x.A, ... })` where helper is an extracted copy of the write loop
+			if len(s.Results) == 1 {
+				if c, ok := s.Results[0].(*ast.CallExpr); ok {
+					if id, ok := c.Fun.(*ast.Ident); ok && len(c.Args) == 2 {
+						cl, isLit := c.Args[1].(*ast.CompositeLit)
+						if !isLit || !writeLoopHelper(spec.file, id.Name) {
+							return nil, fmt.Errorf("%s: call of %s is not a recognised write-loop helper", fset.Position(s.Pos()), id.Name)
+						}
+						for _, e := range cl.Elts {
+							if err := add(e, false); err != nil {
+								return nil, err
+							}
+						}
+						continue
 					}
-					if se, ok := c.Fun.(*ast.SelectorExpr); ok && se.Sel.Name == "Write" {
-						bad = true
+					if se, ok := c.Fun.(*ast.SelectorExpr); !ok || se.Sel.Name != "Sum" {
+						return nil, fmt.Errorf("%s: unsupported call in return of a digest function", fset.Position(s.Pos()))
 					}
 				}
-				return true
-			})
-			if bad {
-				return nil, fmt.Errorf("%s: hash input outside the recognised idioms", fset.Position(s.Pos()))
+			}
+			if err := noHashInput(s, fset); err != nil {
+				return nil, err
+			}
+		case *ast.AssignStmt, *ast.DeclStmt:
+			if err := noHashInput(s, fset); err != nil {
+				return nil, err
 			}
 		default:
 			return nil, fmt.Errorf("%s: unsupported statement %T in digest function", fset.Position(st.Pos()), st)
